@@ -89,6 +89,10 @@ CHECKS = {
    technique="schedule exploration with a deterministic cooperative scheduler (generated schedules via proptest + bounded exhaustive enumeration of schedule prefixes) over the real blocking queue; invariant over the logically time-stamped event log",
    text="The real BlockingMap/TaskBlockingQueue/BlockingHandle run on real OS threads (1..3 senders, 1..2 controllers, a completer) of which exactly one is runnable at a time; context switches happen only at the scheduling points hook H3 places before every shared-memory access of proxy/blocking.rs. Generated byte-vector schedules plus every schedule prefix of length 7 (quick) / 9 (thorough) for 2 senders x 1 controller. No command is handed to the source Redis while a controller has observed blocking_done and not yet lifted blocking; every command ends in exactly one outcome; at quiescence nothing is queued and no command is counted as running.",
    note="Sequentially consistent interleavings only (the atomics are SeqCst); crossbeam channel internals are trusted; an access the hooks miss is not pre-empted; the exhaustive part is exhaustive only up to the stated prefix length."),
+ "C07": dict(engine="proxysim+brokersim", category="fault_enumeration", design="DESIGN.md §3 C07",
+   technique="fault injection over generated scripts plus exhaustive single-fault / single-crash-point enumeration of a reference script, against a world built from the real coordinator components, real proxies and the real broker; safety invariants after every step and bounded-convergence oracle",
+   text="Coordinator rounds are assembled from the real components (hook H1) exactly as CoordinatorService does, with the real in-memory broker behind the coordinator's broker traits and 6..12 real proxies on the fake network. Scripts mix admin operations, rounds of one or two coordinators (also concurrently), proxy restarts/kills and a fault plan addressed by call signature x occurrence (drop request, drop reply, duplicate) or a coordinator crash at its n-th outgoing call. Every single fault (10 call kinds x 8 occurrences x 3 types) and every crash point (7 steps x 24 calls) of a reference scale-out script is enumerated. No proxy epoch ever decreases except across its own restart; no migration is committed twice; after faults stop, clean cycles bring every reachable non-failed proxy to the broker's view (epoch, roles, routing) with no finished migration left; a lone fault-free migration round updates the destination before the source.",
+   note="Liveness is checked as bounded convergence: only a stuck state (24 clean cycles, the last 6 identical) is a violation. The broker is reached in-process through the coordinator's broker traits (no HTTP). Fault positions in generated scripts are random; exhaustive only for the reference script."),
 }
 
 NOT_YET = {}
